@@ -35,7 +35,15 @@ var hostileStrings = []string{
 }
 
 func genString(t *rapid.T, label string) string {
-	switch rapid.IntRange(0, 3).Draw(t, label+"Kind") {
+	switch rapid.IntRange(0, 4).Draw(t, label+"Kind") {
+	case 4:
+		// long strings: a run of plain characters up to (around) a power of two of output bytes,
+		// then something the writer has to escape or that takes several bytes, then a tail -
+		// whatever a writer buffers, the boundary falls inside it for some of these lengths
+		n := rapid.SampledFrom([]int{30, 31, 32, 33, 60, 61, 62, 63, 64, 65, 126, 127, 128, 129, 254, 255, 256, 257, 510, 511, 512, 513, 1022, 1023, 1024, 4094, 4095, 4096}).Draw(t, label+"RunLen")
+		n += rapid.IntRange(-3, 3).Draw(t, label+"RunJitter")
+		mid := rapid.SampledFrom([]string{"\n", "\"", "\\", "\x01", "\x1f", "é", "€", "😀", "\t\"", "\r\n", "\x7f"}).Draw(t, label+"Mid")
+		return strings.Repeat(rapid.SampledFrom([]string{"a", "ab", "x "}).Draw(t, label+"Unit"), n)[:n] + mid + rapid.SampledFrom([]string{"", "tail", "\n", "é"}).Draw(t, label+"Tail")
 	case 0:
 		return rapid.SampledFrom(hostileStrings).Draw(t, label+"H")
 	case 1:
